@@ -135,6 +135,24 @@ var extShapes = func() []extShape {
 			return qcExt(qcStmt(oidQcCompliance), qcStmt(oidQcType, l))
 		})
 	}
+	// the same QC types on a DUAL-USE certificate - serverAuth and emailProtection in one extKeyUsage, an S/MIME policy
+	// next to the template's own, a dNSName and an rfc822Name - where the rules for web and for e-mail certificates meet
+	for _, ty := range [][]string{{oidQcType + ".1"}, {oidQcType + ".2"}, {oidQcType + ".3"}, {oidQcType + ".1", oidQcType + ".2"}, {oidQcType + ".3", oidQcType + ".1"}, {}} {
+		ty := ty
+		for _, pol := range []string{"2.23.140.1.5.1.1", "2.23.140.1.5.3.2"} {
+			pol := pol
+			add(fmt.Sprintf("qc type %v on a dual-use certificate (serverAuth + emailProtection, policy %s)", ty, pol), func() []*der.Node {
+				l := der.Seq()
+				for _, o := range ty {
+					l.Children = append(l.Children, der.OID(o))
+				}
+				return append(qcExt(qcStmt(oidQcCompliance), qcStmt(oidQcType, l)),
+					gen.ExtEKU(false, gen.OIDEkuServer, gen.OIDEkuEmail),
+					gen.ExtPolicies(pol),
+					gen.ExtSAN(false, gen.GNDNS("www.example.com"), gen.GNEmail("alice@example.com")))
+			})
+		}
+	}
 	add("qc type not a sequence", func() []*der.Node { return qcExt(qcStmt(oidQcType, der.OID(oidQcType+".3"))) })
 	add("qc type without info", func() []*der.Node { return qcExt(qcStmt(oidQcType)) })
 	add("qc type without compliance", func() []*der.Node { return qcExt(qcStmt(oidQcType, der.Seq(der.OID(oidQcType+".3")))) })
